@@ -7,9 +7,9 @@ shift
 props=${@:-C08 C09 C12 C13 C14 C15 C20 C22 C27 C30 C34}
 rc=0
 for p in $props; do
-  VERIF_SEED=$seed ./check $p --no-selftest > /tmp/det_a_$p.log 2>&1
+  VERIF_SEED=$seed ./check $p --no-selftest --wall 3000 > /tmp/det_a_$p.log 2>&1
   a=$(python3 -c "import json;print(json.load(open('evidence/$p.json'))['coverage']['run_digest'], json.load(open('evidence/$p.json'))['coverage']['evaluations'])")
-  VERIF_SEED=$seed PPSIM_LANES=7 PYTHONHASHSEED=3 ./check $p --no-selftest > /tmp/det_b_$p.log 2>&1
+  VERIF_SEED=$seed PPSIM_LANES=7 PYTHONHASHSEED=3 ./check $p --no-selftest --wall 3000 > /tmp/det_b_$p.log 2>&1
   b=$(python3 -c "import json;print(json.load(open('evidence/$p.json'))['coverage']['run_digest'], json.load(open('evidence/$p.json'))['coverage']['evaluations'])")
   if [ "$a" == "$b" ]; then echo "$p deterministic: $a"; else echo "$p NONDETERMINISTIC: $a vs $b"; rc=1; fi
 done
